@@ -116,8 +116,9 @@ class Pins:
                 names = [norm(x) for x in (test.args[1].elts if isinstance(test.args[1], ast.Tuple) else [test.args[1]])]
                 out = None
                 for nme in names:
-                    caps = CAPS.get(nme) or (CAPS["exception"] if nme in ("Exception", "BaseException") else
-                                               CAPS["listlike"] if nme in LISTLIKE_NAMES else None)
+                    # isinstance() also admits subclasses, whose __len__/__getitem__/__iter__ are the traced program's own
+                    # code: only the exception family pins anything (BaseException.args is a C-level slot)
+                    caps = CAPS["exception"] if nme in ("Exception", "BaseException") else None
                     if caps is None:
                         return set()
                     out = set(caps) if out is None else out & caps
@@ -312,6 +313,44 @@ def run(ctx: Ctx, tier: str) -> Result:
                     res.fail(Finding("C06.INDEP", f.qname, c, f.loc(c),
                                      "a nested %s is created while processing this action but numbers its variables with its own identity cache: "
                                      "when its variables are merged into the snapshot they overwrite entries with the same ids" % k.name))
+    # action contexts may only take immutable facts and injected services from the per-event trigger context: any object
+    # the trigger context itself creates (containers, collectors, caches) is shared by all actions of the event
+    tcc = p.cls("deep.processor.context.trigger_context.TriggerContext")
+    created = {}
+    for lst in tcc.methods.values():
+        for m_ in lst:
+            for n in t.nodes_in(m_, (ast.Assign, ast.AnnAssign)):
+                tg = n.targets[0] if isinstance(n, ast.Assign) else n.target
+                v = n.value
+                if isinstance(tg, ast.Attribute) and isinstance(tg.value, ast.Name) and tg.value.id == "self" and v is not None:
+                    made = isinstance(v, (ast.Dict, ast.List, ast.Set)) or (isinstance(v, ast.Call) and (t.resolve_call(v, m_).ctor or
+                                                                              norm(v.func) in ("dict", "list", "set", "deque")))
+                    if made:
+                        created[tcc.mangle(tg.attr)] = m_.loc(n)
+    exposes = {}
+    for name, lst in tcc.methods.items():
+        for m_ in lst:
+            for r in t.nodes_in(m_, ast.Return):
+                if isinstance(r.value, ast.Attribute) and isinstance(r.value.value, ast.Name) and r.value.value.id == "self" \
+                        and tcc.mangle(r.value.attr) in created:
+                    exposes[name] = tcc.mangle(r.value.attr)
+    APPEND_ONLY = {"_TriggerContext__results": "results are only appended through attach_result"}
+    nacc = 0
+    for f in p.functions.values():
+        if f.cls is None or not (f.cls.is_subclass_of(acx) or f.cls.name in ("FrameCollector",)):
+            continue
+        for n in t.nodes_in(f, ast.Attribute):
+            if not any(tt[0] == "inst" and tt[1] == tcc.qname for tt in t.type_of(n.value, f)):
+                continue
+            nacc += 1
+            fld = exposes.get(n.attr) or (tcc.mangle(n.attr) if tcc.mangle(n.attr) in created else None)
+            if fld is None or fld in APPEND_ONLY:
+                res.ok("C06.INDEP")
+            else:
+                res.fail(Finding("C06.INDEP", f.qname, n, f.loc(n),
+                                 "the action takes `%s` from the per-event trigger context, an object the trigger context creates once (%s): it is "
+                                 "shared by every action of the trace event, so tracepoints at one location alter one another's collection" % (norm(n), created[fld])))
+    res.floor("trigger-context accesses from action code", nacc, 10)
     res.floor("identity-cache uses in action contexts", nsites, 3)
     if len(cache_texts) <= 1:
         res.ok("C06.INDEP", {"one cache per action": sorted(cache_texts)})
